@@ -1,7 +1,1072 @@
-//! C06 engine (not yet built).
-use crate::common::{CaseWriter, Opts};
+//! C06 — the bundled parsers accept the same language and build the same tree.
+//!
+//! Runs the three REAL parsers in-process on generated sources:
+//!   * `jrsonnet_ir_parser::parse`   (default evaluator parser, Pratt loop)
+//!   * `jrsonnet_peg_parser::parse`  (legacy PEG grammar)
+//!   * `jrsonnet_rowan_parser::parse` (formatter's syntax-tree parser; only "no error reported")
+//! ASTs are serialised by a structural walker with every span erased.
+//!
+//! Operations written for the Lean driver:
+//!   * `c06.agree`    {src, ir, peg, rowan[, base]} -> driver evaluates the executable statement
+//!                    "ir == peg, rowan error-free iff ir accepts[, ir == base]" (observation)
+//!   * `c06.pratt`    {via: ir|peg, toks}  -> impl {ast}; driver answers model (Pratt loop over the
+//!                    EXTRACTED binding-power table of that parser) and spec (Jsonnet grammar table)
+//!   * `c06.unescape` {s: code points}     -> impl {out}; driver answers model (unescape.rs mirror
+//!                    with extracted shifts/escape letters) and spec (Jsonnet escape definition)
+use std::collections::BTreeMap;
+
+use jrsonnet_ir::{
+	ArgsDesc, AssertStmt, BindSpec, CompSpec, Destruct, Expr, ExprParams, FieldMember, FieldName,
+	ObjBody, Source, Spanned,
+};
+use jrsonnet_lexer::{Lexer, SyntaxKind};
+use serde_json::{json, Value};
+
+use crate::common::{guarded, CaseWriter, Opts, Rng};
+
+// ------------------------------------------------------------------------------------------
+// span-erasing structural serialiser
+// ------------------------------------------------------------------------------------------
+fn sx_destruct(d: &Destruct, o: &mut String) {
+	#[allow(unreachable_patterns)]
+	match d {
+		Destruct::Full(n) => o.push_str(n),
+		other => o.push_str(&format!("<destruct {other:?}>")),
+	}
+}
+fn sx_params(p: &ExprParams, o: &mut String) {
+	o.push_str("(params");
+	for p in p.exprs.iter() {
+		o.push_str(" (");
+		sx_destruct(&p.destruct, o);
+		if let Some(d) = &p.default {
+			o.push(' ');
+			sx(d, o);
+		}
+		o.push(')');
+	}
+	o.push(')');
+}
+fn sx_args(a: &ArgsDesc, o: &mut String) {
+	o.push_str("(args");
+	for e in &a.unnamed {
+		o.push(' ');
+		sx(e, o);
+	}
+	for (n, e) in &a.named {
+		o.push_str(&format!(" ({n}= "));
+		sx(e, o);
+		o.push(')');
+	}
+	o.push(')');
+}
+fn sx_bind(b: &BindSpec, o: &mut String) {
+	match b {
+		BindSpec::Field { into, value } => {
+			o.push_str("(bind ");
+			sx_destruct(into, o);
+			o.push(' ');
+			sx(value, o);
+			o.push(')');
+		}
+		BindSpec::Function {
+			name,
+			params,
+			value,
+		} => {
+			o.push_str(&format!("(bindfn {name} "));
+			sx_params(params, o);
+			o.push(' ');
+			sx(value, o);
+			o.push(')');
+		}
+	}
+}
+fn sx_assert(a: &AssertStmt, o: &mut String) {
+	o.push_str("(assert ");
+	sx(&a.0, o);
+	if let Some(m) = &a.1 {
+		o.push(' ');
+		sx(m, o);
+	}
+	o.push(')');
+}
+fn sx_field(f: &FieldMember, o: &mut String) {
+	o.push_str("(field ");
+	match &f.name.value {
+		FieldName::Fixed(n) => o.push_str(&format!("{:?}", n.as_str())),
+		FieldName::Dyn(e) => {
+			o.push_str("[");
+			sx(e, o);
+			o.push(']');
+		}
+	}
+	if f.plus {
+		o.push_str(" +");
+	}
+	o.push_str(&format!(" {:?} ", f.visibility));
+	if let Some(p) = &f.params {
+		sx_params(p, o);
+		o.push(' ');
+	}
+	sx(&f.value, o);
+	o.push(')');
+}
+fn sx_specs(specs: &[CompSpec], o: &mut String) {
+	for s in specs {
+		match s {
+			CompSpec::IfSpec(i) => {
+				o.push_str(" (ifspec ");
+				sx(&i.cond, o);
+				o.push(')');
+			}
+			CompSpec::ForSpec(f) => {
+				o.push_str(" (forspec ");
+				sx_destruct(&f.destruct, o);
+				o.push(' ');
+				sx(&f.over, o);
+				o.push(')');
+			}
+		}
+	}
+}
+fn sx_body(b: &ObjBody, o: &mut String) {
+	match b {
+		ObjBody::MemberList(m) => {
+			o.push_str("(members");
+			for l in m.locals.iter() {
+				o.push(' ');
+				sx_bind(l, o);
+			}
+			for a in m.asserts.iter() {
+				o.push(' ');
+				sx_assert(a, o);
+			}
+			for f in &m.fields {
+				o.push(' ');
+				sx_field(f, o);
+			}
+			o.push(')');
+		}
+		ObjBody::ObjComp(c) => {
+			o.push_str("(objcomp");
+			for l in c.locals.iter() {
+				o.push(' ');
+				sx_bind(l, o);
+			}
+			o.push(' ');
+			sx_field(&c.field, o);
+			sx_specs(&c.compspecs, o);
+			o.push(')');
+		}
+	}
+}
+fn sx_opt(e: &Option<Spanned<Expr>>, o: &mut String) {
+	match e {
+		Some(e) => sx(e, o),
+		None => o.push('_'),
+	}
+}
+fn sx(e: &Expr, o: &mut String) {
+	match e {
+		Expr::Literal(l) => o.push_str(&format!("@{l:?}")),
+		Expr::Str(s) => o.push_str(&format!("{:?}", s.as_str())),
+		Expr::Num(n) => o.push_str(&format!("{n}")),
+		Expr::Var(v) => o.push_str(&v.value),
+		Expr::Arr(a) => {
+			o.push('[');
+			for (i, e) in a.iter().enumerate() {
+				if i > 0 {
+					o.push(' ');
+				}
+				sx(e, o);
+			}
+			o.push(']');
+		}
+		Expr::ArrComp(e, specs) => {
+			o.push_str("(arrcomp ");
+			sx(e, o);
+			sx_specs(specs, o);
+			o.push(')');
+		}
+		Expr::Obj(b) => {
+			o.push_str("(obj ");
+			sx_body(b, o);
+			o.push(')');
+		}
+		Expr::ObjExtend(e, b) => {
+			o.push_str("(objext ");
+			sx(e, o);
+			o.push(' ');
+			sx_body(b, o);
+			o.push(')');
+		}
+		Expr::UnaryOp(op, e) => {
+			o.push_str(&format!("({op:?} "));
+			sx(e, o);
+			o.push(')');
+		}
+		Expr::BinaryOp(b) => {
+			o.push_str(&format!("({:?} ", b.op));
+			sx(&b.lhs, o);
+			o.push(' ');
+			sx(&b.rhs, o);
+			o.push(')');
+		}
+		Expr::AssertExpr(a) => {
+			o.push_str("(assertexpr ");
+			sx_assert(&a.assert, o);
+			o.push(' ');
+			sx(&a.rest, o);
+			o.push(')');
+		}
+		Expr::LocalExpr(binds, body) => {
+			o.push_str("(local (");
+			for (i, b) in binds.iter().enumerate() {
+				if i > 0 {
+					o.push(' ');
+				}
+				sx_bind(b, o);
+			}
+			o.push_str(") ");
+			sx(body, o);
+			o.push(')');
+		}
+		Expr::Import(k, e) => {
+			o.push_str(&format!("(import {:?} ", k.value));
+			sx(e, o);
+			o.push(')');
+		}
+		Expr::ErrorStmt(_, e) => {
+			o.push_str("(error ");
+			sx(e, o);
+			o.push(')');
+		}
+		Expr::Apply(f, args, ts) => {
+			o.push_str("(apply ");
+			sx(f, o);
+			o.push(' ');
+			sx_args(&args.value, o);
+			if *ts {
+				o.push_str(" tailstrict");
+			}
+			o.push(')');
+		}
+		Expr::Index { indexable, parts } => {
+			o.push_str("(index ");
+			sx(indexable, o);
+			for p in parts {
+				o.push(' ');
+				sx(&p.value, o);
+			}
+			o.push(')');
+		}
+		Expr::Function(p, body) => {
+			o.push_str("(fn ");
+			sx_params(p, o);
+			o.push(' ');
+			sx(body, o);
+			o.push(')');
+		}
+		Expr::IfElse(i) => {
+			o.push_str("(if ");
+			sx(&i.cond.cond, o);
+			o.push(' ');
+			sx(&i.cond_then, o);
+			if let Some(e) = &i.cond_else {
+				o.push(' ');
+				sx(e, o);
+			}
+			o.push(')');
+		}
+		Expr::Slice(s) => {
+			o.push_str("(slice ");
+			sx(&s.value, o);
+			o.push(' ');
+			sx_opt(&s.slice.start, o);
+			o.push(' ');
+			sx_opt(&s.slice.end, o);
+			o.push(' ');
+			sx_opt(&s.slice.step, o);
+			o.push(')');
+		}
+	}
+}
+
+const REJECT: &str = "reject";
+
+fn source(src: &str) -> Source {
+	Source::new_virtual("<c06>".into(), src.into())
+}
+
+thread_local! {
+	static LAST_IR_MSG: std::cell::RefCell<String> = const { std::cell::RefCell::new(String::new()) };
+}
+
+/// (outcome, error offset if rejected)
+fn run_ir(src: &str) -> (String, Option<usize>) {
+	LAST_IR_MSG.with(|m| m.borrow_mut().clear());
+	match guarded(|| {
+		jrsonnet_ir_parser::parse(
+			src,
+			&jrsonnet_ir_parser::ParserSettings {
+				source: source(src),
+			},
+		)
+	}) {
+		Ok(Ok(e)) => {
+			let mut o = String::new();
+			sx(&e, &mut o);
+			(o, None)
+		}
+		Ok(Err(e)) => {
+			LAST_IR_MSG.with(|m| *m.borrow_mut() = e.message.clone());
+			(REJECT.into(), Some(e.location.offset))
+		}
+		Err(p) => (format!("panic: {p}"), None),
+	}
+}
+fn run_peg(src: &str) -> (String, Option<usize>) {
+	match guarded(|| {
+		jrsonnet_peg_parser::parse(
+			src,
+			&jrsonnet_peg_parser::ParserSettings {
+				source: source(src),
+			},
+		)
+	}) {
+		Ok(Ok(e)) => {
+			let mut o = String::new();
+			sx(&e, &mut o);
+			(o, None)
+		}
+		Ok(Err(e)) => (REJECT.into(), Some(e.location.offset)),
+		Err(p) => (format!("panic: {p}"), None),
+	}
+}
+/// Bool(true) = no error reported, Bool(false) = errors, String = panic
+fn run_rowan(src: &str) -> Value {
+	match guarded(|| jrsonnet_rowan_parser::parse(src).1.is_empty()) {
+		Ok(b) => Value::Bool(b),
+		Err(p) => Value::String(format!("panic: {p}")),
+	}
+}
+
+// ------------------------------------------------------------------------------------------
+// case emission
+// ------------------------------------------------------------------------------------------
+struct Ctx {
+	w: CaseWriter,
+	hist: BTreeMap<String, u64>,
+	all_reject: u64,
+	seen: std::collections::HashSet<String>,
+}
+impl Ctx {
+	fn bump(&mut self, k: &str) {
+		*self.hist.entry(k.to_string()).or_insert(0) += 1;
+	}
+	/// returns (ir outcome, viable-prefix flag)
+	fn agree(&mut self, gen: &str, src: &str, base: Option<&str>, skip_all_reject: bool) -> (String, bool) {
+		let (ir, ir_off) = run_ir(src);
+		let ir_msg = LAST_IR_MSG.with(|m| m.borrow().clone());
+		let (peg, peg_off) = run_peg(src);
+		let rowan = run_rowan(src);
+		let viable = ir != REJECT
+			|| peg != REJECT
+			|| ir_off.is_some_and(|o| o >= src.len())
+			|| peg_off.is_some_and(|o| o >= src.len());
+		self.bump(&format!("gen.{gen}"));
+		let outcome = if ir == REJECT && peg == REJECT {
+			"both-reject"
+		} else if ir == REJECT || peg == REJECT {
+			"one-rejects"
+		} else if ir == peg {
+			"same-tree"
+		} else {
+			"different-tree"
+		};
+		self.bump(&format!("outcome.{outcome}"));
+		if skip_all_reject && ir == REJECT && peg == REJECT && rowan != Value::Bool(true) {
+			// rejected by both evaluator parsers and not error-free in the rowan parser (an error
+			// list or a panic; the panic itself is C04/C20 material and is only counted here)
+			self.all_reject += 1;
+			if rowan != Value::Bool(false) {
+				self.bump("rowan.panic-on-rejected-text");
+			}
+			return (ir, viable);
+		}
+		if !self.seen.insert(src.to_string()) {
+			return (ir, viable);
+		}
+		let mut op = json!({"op":"c06.agree","gen":gen,"src":src,"ir":ir,"peg":peg,"rowan":rowan,
+			"size": src.len()});
+		if let Some(b) = base {
+			op["base"] = json!(b);
+		}
+		if !ir_msg.is_empty() {
+			op["ir_msg"] = json!(ir_msg);
+		}
+		if outcome == "both-reject" {
+			op["trivial"] = json!(true);
+		}
+		self.w.case(op, json!({}));
+		(ir, viable)
+	}
+	fn pratt(&mut self, gen: &str, toks: &[String], want: Option<&str>) {
+		let src = toks.join(" ");
+		for via in ["ir", "peg"] {
+			let (ast, _) = if via == "ir" { run_ir(&src) } else { run_peg(&src) };
+			let mut op = json!({"op":"c06.pratt","gen":gen,"via":via,"toks":toks,"size":src.len()});
+			if let Some(w) = want {
+				op["want"] = json!(w);
+				op["minimal"] = json!(gen != "random-extra-parens");
+			}
+			self.bump(&format!("pratt.{via}.{}", if ast == REJECT { "reject" } else { "accept" }));
+			self.w.case(op, json!({"ast": ast}));
+		}
+	}
+	fn unescape(&mut self, gen: &str, s: &str) {
+		let cps: Vec<u32> = s.chars().map(|c| c as u32).collect();
+		let out = match guarded(|| jrsonnet_ir::unescape::unescape(s)) {
+			Ok(Some(o)) => json!(o.chars().map(|c| c as u32).collect::<Vec<_>>()),
+			Ok(None) => Value::Null,
+			Err(p) => json!(format!("panic: {p}")),
+		};
+		self.bump(&format!("unescape.{}", if out.is_null() { "reject" } else { "accept" }));
+		self.w.case(
+			json!({"op":"c06.unescape","gen":gen,"s":cps,"size":cps.len(),"_text":s}),
+			json!({"out": out}),
+		);
+	}
+}
+
+// ------------------------------------------------------------------------------------------
+// generators
+// ------------------------------------------------------------------------------------------
+const ALPHABET: [&str; 25] = [
+	"x", "1", "\"s\"", "(", ")", "[", "]", "{", "}", ":", ",", ".", "+", "-", "*", "~", "==", "in",
+	"if", "then", "else", "local", "=", ";", "for",
+];
+
+/// tokens joined by one space; adjacent ':' are glued (`::`/`:::` are single tokens of the
+/// grammar, the lexer only knows ':')
+fn join(toks: &[&str]) -> String {
+	let mut s = String::new();
+	for (i, t) in toks.iter().enumerate() {
+		if i > 0 && !(*t == ":" && toks[i - 1] == ":") {
+			s.push(' ');
+		}
+		s.push_str(t);
+	}
+	s
+}
+
+fn exhaustive(c: &mut Ctx, full_len: usize, max_len: usize) {
+	// breadth-first; beyond `full_len` only viable prefixes are extended
+	let mut frontier: Vec<Vec<u8>> = vec![vec![]];
+	for len in 1..=max_len {
+		let mut next = Vec::new();
+		for p in &frontier {
+			for (i, _) in ALPHABET.iter().enumerate() {
+				let mut q = p.clone();
+				q.push(i as u8);
+				let toks: Vec<&str> = q.iter().map(|i| ALPHABET[*i as usize]).collect();
+				let src = join(&toks);
+				let (_, viable) = c.agree(&format!("exh{len}"), &src, None, true);
+				if len < full_len || (viable && len < max_len) {
+					next.push(q);
+				}
+			}
+		}
+		frontier = next;
+	}
+}
+
+const BINOPS: [(&str, &str, u8); 19] = [
+	("*", "Mul", 3),
+	("/", "Div", 3),
+	("%", "Mod", 3),
+	("+", "Add", 4),
+	("-", "Sub", 4),
+	("<<", "Lhs", 5),
+	(">>", "Rhs", 5),
+	("<", "Lt", 6),
+	(">", "Gt", 6),
+	("<=", "Lte", 6),
+	(">=", "Gte", 6),
+	("in", "In", 6),
+	("==", "Eq", 7),
+	("!=", "Neq", 7),
+	("&", "BitAnd", 8),
+	("^", "BitXor", 9),
+	("|", "BitOr", 10),
+	("&&", "And", 11),
+	("||", "Or", 12),
+];
+const UNOPS: [(&str, &str); 4] = [("+", "Plus"), ("-", "Minus"), ("!", "Not"), ("~", "BitNot")];
+
+#[derive(Clone, Debug)]
+enum A {
+	Atom(String),
+	Un(usize, Box<A>),
+	Bin(usize, Box<A>, Box<A>),
+}
+impl A {
+	fn sexpr(&self) -> String {
+		match self {
+			A::Atom(s) => s.clone(),
+			A::Un(u, e) => format!("({} {})", UNOPS[*u].1, e.sexpr()),
+			A::Bin(o, l, r) => format!("({} {} {})", BINOPS[*o].1, l.sexpr(), r.sexpr()),
+		}
+	}
+	/// Jsonnet grammar level: 0 atom, 2 unary, 3.. binary
+	fn level(&self) -> u8 {
+		match self {
+			A::Atom(_) => 0,
+			A::Un(..) => 2,
+			A::Bin(o, ..) => BINOPS[*o].2,
+		}
+	}
+	/// minimal parentheses per the Jsonnet grammar (all binary operators left-associative,
+	/// unary binds tighter than every binary operator); `extra` adds redundant parentheses
+	fn print(&self, out: &mut Vec<String>, rng: &mut Option<&mut Rng>) {
+		let extra = rng.as_mut().is_some_and(|r| r.chance(1, 8));
+		if extra {
+			out.push("(".into());
+		}
+		match self {
+			A::Atom(s) => out.push(s.clone()),
+			A::Un(u, e) => {
+				out.push(UNOPS[*u].0.into());
+				let paren = e.level() > 2;
+				if paren {
+					out.push("(".into());
+				}
+				e.print(out, rng);
+				if paren {
+					out.push(")".into());
+				}
+			}
+			A::Bin(o, l, r) => {
+				let lv = BINOPS[*o].2;
+				let lp = l.level() > lv;
+				let rp = r.level() >= lv;
+				if lp {
+					out.push("(".into());
+				}
+				l.print(out, rng);
+				if lp {
+					out.push(")".into());
+				}
+				out.push(BINOPS[*o].0.into());
+				if rp {
+					out.push("(".into());
+				}
+				r.print(out, rng);
+				if rp {
+					out.push(")".into());
+				}
+			}
+		}
+		if extra {
+			out.push(")".into());
+		}
+	}
+}
+fn atom(s: &str) -> Box<A> {
+	Box::new(A::Atom(s.into()))
+}
+fn rand_ast(rng: &mut Rng, depth: usize) -> A {
+	if depth == 0 || rng.chance(1, 5) {
+		return A::Atom((*rng.pick(&["a", "b", "c", "1", "2", "x"])).to_string());
+	}
+	if rng.chance(1, 4) {
+		A::Un(rng.below(4), Box::new(rand_ast(rng, depth - 1)))
+	} else {
+		A::Bin(
+			rng.below(19),
+			Box::new(rand_ast(rng, depth - 1)),
+			Box::new(rand_ast(rng, depth - 1)),
+		)
+	}
+}
+
+fn operators(c: &mut Ctx, rng: &mut Rng, n_random: usize) {
+	let emit = |c: &mut Ctx, gen: &str, a: &A| {
+		let mut toks = Vec::new();
+		a.print(&mut toks, &mut None);
+		c.pratt(gen, &toks, Some(&a.sexpr()));
+		let src = toks.join(" ");
+		c.agree(gen, &src, None, false);
+	};
+	// every ordered pair of binary operators in both association positions
+	for o1 in 0..19 {
+		for o2 in 0..19 {
+			emit(c, "pair-left", &A::Bin(o2, Box::new(A::Bin(o1, atom("a"), atom("b"))), atom("c")));
+			emit(c, "pair-right", &A::Bin(o1, atom("a"), Box::new(A::Bin(o2, atom("b"), atom("c")))));
+		}
+	}
+	// every unary with every binary in every position, and stacked unaries
+	for u in 0..4 {
+		for o in 0..19 {
+			emit(c, "un-left", &A::Bin(o, Box::new(A::Un(u, atom("a"))), atom("b")));
+			emit(c, "un-right", &A::Bin(o, atom("a"), Box::new(A::Un(u, atom("b")))));
+			emit(c, "un-over", &A::Un(u, Box::new(A::Bin(o, atom("a"), atom("b")))));
+			for o2 in [0usize, 3, 12, 18] {
+				emit(
+					c,
+					"un-mid",
+					&A::Bin(o2, Box::new(A::Bin(o, atom("a"), Box::new(A::Un(u, atom("b"))))), atom("c")),
+				);
+			}
+		}
+		for u2 in 0..4 {
+			emit(c, "un-un", &A::Un(u, Box::new(A::Un(u2, atom("a")))));
+		}
+	}
+	// raw (unparenthesised) token strings: the tree is decided by the tables alone
+	for o1 in 0..19 {
+		for o2 in 0..19 {
+			let toks: Vec<String> =
+				["a", BINOPS[o1].0, "b", BINOPS[o2].0, "c"].iter().map(|s| s.to_string()).collect();
+			c.pratt("raw-pair", &toks, None);
+			for u in 0..4 {
+				let toks: Vec<String> = [UNOPS[u].0, "a", BINOPS[o1].0, UNOPS[u].0, "b", BINOPS[o2].0, "c"]
+					.iter()
+					.map(|s| s.to_string())
+					.collect();
+				c.pratt("raw-un-pair", &toks, None);
+			}
+		}
+	}
+	for _ in 0..n_random {
+		let d = 2 + rng.below(5);
+		let a = rand_ast(rng, d);
+		let mut toks = Vec::new();
+		let redundant = rng.chance(1, 3);
+		{
+			let mut r = if redundant { Some(&mut *rng) } else { None };
+			a.print(&mut toks, &mut r);
+		}
+		c.pratt(if redundant { "random-extra-parens" } else { "random-minimal" }, &toks, Some(&a.sexpr()));
+		if rng.chance(1, 4) {
+			c.agree("random-ast", &toks.join(" "), None, false);
+		}
+	}
+	// malformed expression-fragment streams
+	let frag: Vec<&str> = ["a", "1", "(", ")", "+", "-", "!", "~", "*", "==", "in", "&&", "<<"].to_vec();
+	for _ in 0..n_random / 2 {
+		let n = 1 + rng.below(8);
+		let toks: Vec<String> = (0..n).map(|_| (*rng.pick(&frag)).to_string()).collect();
+		c.pratt("random-tokens", &toks, None);
+	}
+}
+
+const PROGRAMS: &[&str] = &[
+	"local a = 1 , b = 2 ; a + b",
+	"local f ( x , y = 1 ) = x + y ; f ( 2 , y = 3 )",
+	"{ a : 1 , b :: 2 , c ::: 3 , d +: 4 , e ( x ) : x , [ \"f\" ] : 5 , \"g\" : 6 }",
+	"{ local v = 1 , assert v == 1 : \"m\" , a : v }",
+	"{ [ k ] : 1 for k in [ \"a\" , \"b\" ] if k != \"a\" }",
+	"[ x * 2 for x in [ 1 , 2 , 3 ] if x > 1 for y in [ x ] ]",
+	"[ 1 , 2 , 3 ] [ 1 : 2 : 1 ]",
+	"a [ 1 : ] [ : 2 ] [ : : 3 ] [ : ]",
+	"if a then b else c",
+	"if a then b",
+	"function ( a , b = 2 ) a + b",
+	"assert a : \"msg\" ; b",
+	"error \"boom\"",
+	"import \"a.libsonnet\"",
+	"importstr \"a.txt\"",
+	"importbin \"a.bin\"",
+	"a . b . c ( 1 , 2 ) [ 3 ] . d",
+	"f ( 1 ) tailstrict",
+	"a { b : 1 } { c : 2 }",
+	"self . a + super . b + $ . c",
+	"\"x\" in super",
+	"- a . b * ! c ( 1 )",
+	"[ null , true , false , self , $ ]",
+	"{ a : if x then 1 else 2 , b : local y = 1 ; y }",
+	"local a = function ( x ) x ; a ( 1 ) + a ( x = 2 )",
+	"( a + b ) * c",
+	"1 + 2 * 3 - 4 / 5 % 6",
+	"a && b || c && ! d",
+	"a | b ^ c & d == e < f << g + h * i",
+	"x . y { z : 1 } . w",
+	"[ ]",
+	"{ }",
+	"@\"a\"\"b\" + @'c''d'",
+	"|||\n  text\n  more\n|||",
+	"{ \"a b\" : 1 , 'c' : 2 }",
+	"a [ b ] [ c ] ( d ) ( e )",
+	"local x = 1 ; local y = 2 ; x + y",
+	"1e3 + 1.5 + 1_000 + 0.1e-2",
+];
+
+fn lex_tokens(src: &str) -> Vec<String> {
+	Lexer::new(src)
+		.filter(|l| {
+			!matches!(
+				l.kind,
+				SyntaxKind::WHITESPACE
+					| SyntaxKind::SINGLE_LINE_SLASH_COMMENT
+					| SyntaxKind::SINGLE_LINE_HASH_COMMENT
+					| SyntaxKind::MULTI_LINE_COMMENT
+			)
+		})
+		.map(|l| l.text.to_string())
+		.collect()
+}
+
+fn mutations(c: &mut Ctx, rng: &mut Rng, per_program: usize) {
+	for p in PROGRAMS {
+		c.agree("program", p, None, false);
+		let toks = lex_tokens(p);
+		let render = |t: &[String]| {
+			let v: Vec<&str> = t.iter().map(String::as_str).collect();
+			join(&v)
+		};
+		// every single-token deletion
+		for i in 0..toks.len() {
+			let mut t = toks.clone();
+			t.remove(i);
+			c.agree("mut-delete", &render(&t), None, false);
+		}
+		let extra = ["tailstrict", "function", "assert", "error", "import", "null", "self", "super", "$", "!", "::", ":::", "+:", "/", "%", "<", "&&", "||", "|", "&", "^", "!=", "..."];
+		for _ in 0..per_program {
+			let mut t = toks.clone();
+			let tok = if rng.chance(2, 3) {
+				(*rng.pick(&ALPHABET)).to_string()
+			} else {
+				(*rng.pick(&extra)).to_string()
+			};
+			let i = rng.below(t.len() + 1);
+			if rng.chance(1, 2) && i < t.len() {
+				t[i] = tok;
+				c.agree("mut-replace", &render(&t), None, false);
+			} else {
+				t.insert(i, tok);
+				c.agree("mut-insert", &render(&t), None, false);
+			}
+		}
+	}
+}
+
+const TRIVIA: &[&str] = &[
+	" ", "  ", "\n", "\t", "\r\n", " /* c */ ", "/* c */", " // c\n", " # c\n", "/**/", "/***/", "/* **/",
+	"/* * */", "/*\n*/", " //\n", "#\n",
+];
+
+/// append trivia after `s`; a comment opener directly after a `/` token would form `//`
+fn push_trivia(s: &mut String, tr: &str) {
+	if s.ends_with('/') && (tr.starts_with('/') || tr.starts_with('*')) {
+		s.push(' ');
+	}
+	s.push_str(tr);
+}
+
+fn trivia(c: &mut Ctx, rng: &mut Rng, per_program: usize) {
+	let glue = |l: &str, r: &str| {
+		let safe = |ch: char| ")]},;([{".contains(ch);
+		l.chars().last().is_some_and(safe) || r.chars().next().is_some_and(safe)
+	};
+	for p in PROGRAMS {
+		let toks = lex_tokens(p);
+		let v: Vec<&str> = toks.iter().map(String::as_str).collect();
+		let base_src = join(&v);
+		let (base, _) = run_ir(&base_src);
+		// systematic: one trivia form at every boundary
+		for (k, tr) in TRIVIA.iter().enumerate() {
+			let mut s = String::new();
+			if k % 2 == 0 {
+				push_trivia(&mut s, tr);
+			}
+			for (i, t) in toks.iter().enumerate() {
+				if i > 0 && !(t == ":" && toks[i - 1] == ":") {
+					push_trivia(&mut s, tr);
+				}
+				s.push_str(t);
+			}
+			if k % 3 == 0 {
+				push_trivia(&mut s, tr);
+			}
+			c.agree(&format!("trivia-all:{}", tr.escape_default()), &s, Some(&base), false);
+		}
+		for _ in 0..per_program {
+			let mut s = String::new();
+			if rng.chance(1, 3) {
+				push_trivia(&mut s, *rng.pick(TRIVIA));
+			}
+			for (i, t) in toks.iter().enumerate() {
+				if i > 0 && !(t == ":" && toks[i - 1] == ":") {
+					if rng.chance(1, 4) && glue(&toks[i - 1], t) {
+						// no trivia at all
+					} else {
+						push_trivia(&mut s, *rng.pick(TRIVIA));
+						if rng.chance(1, 4) {
+							push_trivia(&mut s, *rng.pick(TRIVIA));
+						}
+					}
+				}
+				s.push_str(t);
+			}
+			if rng.chance(1, 3) {
+				push_trivia(&mut s, *rng.pick(TRIVIA));
+			}
+			c.agree("trivia-random", &s, Some(&base), false);
+		}
+	}
+}
+
+fn literals(c: &mut Ctx) {
+	let mut v: Vec<String> = Vec::new();
+	// every escape letter, both quote styles
+	for ch in 0x20u8..0x7f {
+		let ch = ch as char;
+		v.push(format!("\"a\\{ch}b\""));
+		v.push(format!("'a\\{ch}b'"));
+	}
+	for u in [
+		"0000", "0041", "00e9", "00E9", "d7ff", "D800", "DBFF", "DC00", "DFFF", "E000", "FFFF", "12", "123", "12G4", "",
+	] {
+		v.push(format!("\"\\u{u}\""));
+		v.push(format!("\"\\u{u}z\""));
+	}
+	for hi in ["D800", "DBFF", "D83D", "d83d"] {
+		for lo in ["DC00", "DFFF", "DE00", "de00", "0041", "E000", "DBFF", "D800"] {
+			v.push(format!("\"\\u{hi}\\u{lo}\""));
+		}
+		v.push(format!("\"\\u{hi}x\""));
+		v.push(format!("\"\\u{hi}\\n\""));
+		v.push(format!("\"\\u{hi}\\u12\""));
+	}
+	for x in ["00", "41", "7f", "7F", "80", "ff", "FF", "4", "4G", "G4", ""] {
+		v.push(format!("\"\\x{x}\""));
+		v.push(format!("'\\x{x}z'"));
+	}
+	for s in [
+		"\"\"", "''", "\"a\nb\"", "'a\nb'", "\"é😀\"", "\"'\"", "'\"'", "\"\\\"\"", "'\\''", "\"\\\\\"", "\"\\\"", "\"abc", "'abc",
+		"@\"\"", "@''", "@\"a\"\"b\"", "@'a''b'", "@\"a\\nb\"", "@'a\\'", "@\"a\nb\"", "@\"a\"\"\"", "@'''", "@\"\"\"\"", "@\"a", "@'a", "@x", "@",
+		"\"a\" \"b\"", "\"a\"\"b\"",
+	] {
+		v.push(s.to_string());
+	}
+	// text blocks
+	for s in [
+		"|||\n  a\n  b\n|||",
+		"|||\n  a\n\n  b\n|||",
+		"|||\n\n  a\n|||",
+		"|||\n  a\n   b\n|||",
+		"|||\n   a\n  b\n|||",
+		"|||\n\ta\n\tb\n|||",
+		"|||\n\t a\n\t b\n|||",
+		"|||\n \ta\n\t b\n|||",
+		"|||-\n  a\n|||",
+		"|||-\n  a\n\n|||",
+		"|||- \n  a\n|||",
+		"|||  \n  a\n|||",
+		"|||\t\n  a\n|||",
+		"|||\r\n  a\r\n|||",
+		"||| x\n  a\n|||",
+		"|||\n  a\n  |||",
+		"|||\n  a\n |||",
+		"|||\n  a\n   |||",
+		"|||\n  a\n\t|||",
+		"|||\n  a\n|||\n",
+		"|||\n  a\n||| + \"b\"",
+		"|||\n  a |||\n|||",
+		"|||\n  |||\n|||",
+		"|||\na\n|||",
+		"|||\n  a",
+		"|||\n  a\n",
+		"|||\n  a\n||",
+		"|||",
+		"|||\n",
+		"|||\n|||",
+		"|||\n\n|||",
+		"|||\n  \n|||",
+		"|||\n  a\n  \n  b\n|||",
+		"|||\n  a\n \n  b\n|||",
+		"|||\n  é\n  😀\n|||",
+		"|||\n  a\\n\n|||",
+		"{ a: |||\n    x\n  |||, b: 1 }",
+		"|||\n  a\n|||[0]",
+		"|||--\n  a\n|||",
+	] {
+		v.push(s.to_string());
+	}
+	// numbers
+	for s in [
+		"0", "1", "10", "01", "00", "007", "1_000", "1__0", "1_", "_1", "1_000.000_1", "1.0_1", "1._1", "1_.0", "1e1_0", "1_0e1_0", "1e_1",
+		"1e+5", "1E-5", "1e5", "1E5", "1e", "1e+", "1.", ".5", "1.5", "1.5.5", "1.e5", "0.0", "0e0", "0x10", "1e999", "1e308", "1e-999",
+		"1.7976931348623157e308", "1.7976931348623159e308", "9007199254740993", "0.1", "1 .5", "1.a", "1.5e", "1a", "1_a", "1e5x", "0_1", "0_",
+		"1.0e+0_1", "- 1", "-1", "+1", "1 . 5", "1 e5", "0b1", "1f", "123456789012345678901234567890",
+	] {
+		v.push(s.to_string());
+	}
+	// reserved words / field names
+	for kw in [
+		"assert", "else", "error", "false", "for", "function", "if", "import", "importstr", "importbin", "in", "local", "null", "tailstrict",
+		"then", "self", "super", "true",
+	] {
+		v.push(format!("{{ {kw} : 1 }}"));
+		v.push(format!("x . {kw}"));
+		v.push(format!("{{ \"{kw}\" : 1 }}"));
+		v.push(format!("local {kw} = 1 ; 2"));
+		v.push(format!("function ( {kw} ) 1"));
+		v.push(format!("f ( {kw} = 1 )"));
+		v.push(format!("{kw}"));
+		v.push(format!("{kw}x"));
+		v.push(format!("{kw}_"));
+		v.push(format!("{kw}1 + 1"));
+		v.push(format!("[ 1 for {kw} in x ]"));
+		v.push(format!("1 {kw} 2"));
+	}
+	// trailing commas and separators in every list context
+	for s in [
+		"[ 1 , ]", "[ , ]", "[ 1 , , ]", "[ 1 , 2 , ]", "[ , 1 ]", "{ a : 1 , }", "{ , }", "{ a : 1 , , }", "{ , a : 1 }", "f ( 1 , )", "f ( , )",
+		"f ( 1 , , )", "f ( a = 1 , )", "f ( a = 1 , 2 )", "f ( 1 , a = 2 )", "f ( a = 1 , a = 2 )", "f ( )", "f ( a == 1 )", "f ( a = = 1 )",
+		"function ( a , ) a", "function ( , ) 1", "function ( ) 1", "function ( a , , ) 1", "function ( a = 1 , ) a", "function ( a = 1 , b ) a",
+		"local a = 1 , ; a", "local a = 1 , b = 2 , ; a", "local ; a", "local , ; a", "local a = 1 ; ; a", "local f ( a , ) = a ; f", "local f ( ) = 1 ; f",
+		"[ x for x in y , ]", "[ x , for x in y ]", "[ x , , for x in y ]", "[ x for x in y ] , ", "[ x , y for x in z ]", "[ x for x in y for z in w , ]",
+		"{ [ x ] : 1 , for x in y }", "{ [ x ] : 1 for x in y , }", "{ [ x ] : 1 for x in y }", "{ a : 1 for x in y }", "{ local a = 1 , [ x ] : a for x in y }",
+		"{ [ x ] : 1 , local a = 1 for x in y }", "{ [ x ] : 1 , [ y ] : 2 for x in y }", "{ assert true , [ x ] : 1 for x in y }", "{ for x in y }",
+		"{ local a = 1 for x in y }", "{ [ x ] : 1 if true }", "[ x if true ]", "[ x if true for y in z ]", "[ for x in y ]",
+		"{ a : 1 ; b : 2 }", "{ a : 1 b : 2 }", "[ 1 2 ]", "f ( 1 2 )", "{ a :: : 1 }", "{ a : : 1 }", "{ a : :: 1 }", "{ a :::: 1 }", "{ a + : 1 }", "{ a +:: 1 }",
+		"{ a + :: 1 }", "{ a +::: 1 }", "{ a ( x ) +: 1 }", "{ a + ( x ) : 1 }", "{ a ( x ) :: x }", "{ \"a\" ( x ) : x }", "{ [ a ] ( x ) : x }", "{ [ a ] +: 1 }",
+		"{ a : 1 } { }", "a { } { }", "a . b { }", "a ( ) { }", "a [ 1 ] { }", "1 { }", "\"s\" { }", "[ ] { }", "( a ) { }", "- a { }", "a + b { }",
+		"a tailstrict", "f ( 1 ) tailstrict ( 2 )", "f ( 1 ) tailstrict tailstrict", "f tailstrict ( 1 )", "f ( 1 ) tailstrict . a",
+		"a [ ]", "a [ 1 : 2 : 3 : 4 ]", "a [ : : : ]", "a [ :: ]", "a [ 1 :: 2 ]", "a [ ::: ]", "a [ 1 , 2 ]", "a . 1", "a . \"b\"", "a . ( b )", "a . [ b ]", "a ?. b",
+		"$ . a", "$a", "$ $", "self self", "super", "super . a", "super [ a ]", "\"a\" in super", "super in a", "super + 1", "a in super . b", "( super )", "super ( )",
+		"if a then b else", "if a then", "if a b", "if then else", "if a then b else c else d", "if a then if b then c else d", "if a then b + if c then d else e + f",
+		"local a = 1 ; local b = 2 ; a", "local a = 1 local b = 2 ; a", "local a ; a", "local a = ; a", "local a = 1", "local a = 1 ;", "local a ( x ) = x ; a",
+		"local a ( x ) ( y ) = x ; a", "local a . b = 1 ; a", "local [ a ] = 1 ; a", "local a = b = 1 ; a",
+		"assert a ; b", "assert a : b ; c", "assert a : b : c ; d", "assert a", "assert ; b", "assert a ;", "error a + b", "error", "error error a",
+		"import \"a\" + \"b\"", "import a", "import", "import \"a\" . b", "import ( \"a\" )", "import |||\n  a\n|||", "import @\"a\"", "importstr 'a' [ 0 ]",
+		"function ( a ) function ( b ) a + b", "function a", "function ( a ) ", "function ( a = 1 = 2 ) a", "function ( 1 ) 1", "function ( \"a\" ) 1", "function ( a . b ) 1",
+		"a ( function ( x ) x , y )", "a + function ( x ) x + 1", "- function ( x ) x", "! if a then b else c", "a * local b = 1 ; b + 1", "a == error \"x\" + 1",
+		"a in b in c", "a == b == c", "a < b < c", "a < b == c", "! a == b", "- a in b", "~ a & b", "a ^ b ^ c", "a | b | c", "a - b - c", "a / b / c", "a % b % c",
+		"a << b << c", "a >> b << c", "a && b && c", "a || b || c", "a != b != c", "a <= b >= c", "- - a", "- + a", "! ! a", "~ ~ a", "+ + a", "- ~ ! + a", "a - - b", "a + + b",
+		"a ++ b", "a -- b", "a !b", "a ~ b", "a ! = b", "a = = b", "a < = b", "a > = b", "a < < b", "a > > b", "a & & b", "a | | b", "a <<< b", "a >>> b", "a === b", "a !== b", "a <> b", "a ** b", "a // b\n", "a /* */ b",
+		"a &&& b", "a ||| b", "a |||| b", "a || | b",
+		"", " ", "\n", "// c", "# c", "/* c */", "/* c", "/*/", "/**/", "/***/", "/****/", "/* **/", "1 /***/", "1 /****/ + 2", "1 /* **/", "1 /* * */", "1 /** doc **/ + 2", "1 // c", "1 # c", "1 //", "1 #", "1 // c\r\n + 2", "1 /* */ */",
+		"a\u{a0}+ b", "a\u{2028}+ b", "é", "a.é", "\u{feff}1", "1\u{0}", "1 \u{c} + 2", "1 \u{b} + 2",
+	] {
+		v.push(s.to_string());
+	}
+	for s in v {
+		c.agree("literal", &s, None, false);
+	}
+}
+
+fn unescapes(c: &mut Ctx, rng: &mut Rng, n_random: usize) {
+	c.unescape("plain", "");
+	c.unescape("plain", "abc");
+	c.unescape("plain", "é😀\u{0}\u{7f}");
+	c.unescape("plain", "\\");
+	for ch in 0x20u8..0x7f {
+		c.unescape("letter", &format!("\\{}", ch as char));
+		c.unescape("letter", &format!("a\\{}b", ch as char));
+	}
+	c.unescape("letter", "\\é");
+	c.unescape("letter", "\\\n");
+	// \xHH: every value, both cases, malformed
+	for b in 0u32..256 {
+		c.unescape("x", &format!("\\x{b:02x}"));
+		if b % 7 == 0 {
+			c.unescape("x", &format!("p\\x{b:02X}q"));
+		}
+	}
+	for s in ["\\x", "\\x4", "\\x4g", "\\xg4", "\\x 4", "\\x+4", "\\x4\\", "\\xé1", "\\x1é"] {
+		c.unescape("x-bad", s);
+	}
+	// \uXXXX classes
+	let edge = [
+		0x0000u32, 0x0001, 0x0041, 0x007f, 0x0080, 0x00e9, 0x07ff, 0x0800, 0x1234, 0xabcd, 0xd7ff, 0xd800, 0xd801, 0xd83d, 0xdbff, 0xdc00, 0xdc01,
+		0xde00, 0xdfff, 0xe000, 0xfffd, 0xfffe, 0xffff,
+	];
+	for a in edge {
+		c.unescape("u", &format!("\\u{a:04x}"));
+		c.unescape("u", &format!("<\\u{a:04X}>"));
+		for b in edge {
+			c.unescape("u-pair", &format!("\\u{a:04x}\\u{b:04x}"));
+		}
+		c.unescape("u-then", &format!("\\u{a:04x}\\n"));
+		c.unescape("u-then", &format!("\\u{a:04x}\\"));
+		c.unescape("u-then", &format!("\\u{a:04x}\\u"));
+		c.unescape("u-then", &format!("\\u{a:04x}\\u12"));
+		c.unescape("u-then", &format!("\\u{a:04x}\\x41"));
+		c.unescape("u-then", &format!("\\u{a:04x}u0041"));
+	}
+	for s in ["\\u", "\\u1", "\\u12", "\\u123", "\\u123g", "\\ug123", "\\u 123", "\\u+123", "\\u12345", "\\U0041", "\\u00e9é", "\\u12é4"] {
+		c.unescape("u-bad", s);
+	}
+	let alpha: Vec<&str> = vec![
+		"\\", "\\", "u", "x", "d", "8", "0", "c", "D", "F", "f", "4", "1", "n", "t", "\"", "'", "/", "é", "😀", "g", " ", "\\u", "\\x", "\\ud83d", "\\ude00", "\\\\",
+	];
+	for _ in 0..n_random {
+		let n = 1 + rng.below(9);
+		let s: String = (0..n).map(|_| *rng.pick(&alpha)).collect();
+		c.unescape("random", &s);
+	}
+}
+
+fn replay(c: &mut Ctx, path: &std::path::Path) {
+	let Ok(text) = std::fs::read_to_string(path) else { return };
+	let Ok(v) = serde_json::from_str::<Value>(&text) else { return };
+	let op = v.get("op").cloned().unwrap_or(Value::Null);
+	match op.get("op").and_then(Value::as_str) {
+		Some("c06.agree") => {
+			let src = op["src"].as_str().unwrap_or("");
+			let base = op.get("base").and_then(Value::as_str).map(str::to_string);
+			c.agree("replay", src, base.as_deref(), false);
+		}
+		Some("c06.pratt") => {
+			let toks: Vec<String> = op["toks"]
+				.as_array()
+				.map(|a| a.iter().filter_map(|t| t.as_str().map(str::to_string)).collect())
+				.unwrap_or_default();
+			let want = op.get("want").and_then(Value::as_str).map(str::to_string);
+			c.pratt("replay", &toks, want.as_deref());
+		}
+		Some("c06.unescape") => {
+			let s: String = op["s"]
+				.as_array()
+				.map(|a| a.iter().filter_map(|t| t.as_u64().and_then(|u| char::from_u32(u as u32))).collect())
+				.unwrap_or_default();
+			c.unescape("replay", &s);
+		}
+		_ => {}
+	}
+}
 
 pub fn run(opts: &Opts) {
-	let w = CaseWriter::new(&opts.out);
-	w.finish(serde_json::json!({"engine":"c06","cases":0,"rule":"stub"}), &opts.out);
+	let mut c = Ctx {
+		w: CaseWriter::new(&opts.out),
+		hist: BTreeMap::new(),
+		all_reject: 0,
+		seen: std::collections::HashSet::new(),
+	};
+	let mut rng = Rng::new(opts.seed);
+	let (full_len, max_len) = if opts.thorough() { (5, 7) } else { (4, 5) };
+	if let Some(p) = &opts.replay {
+		replay(&mut c, p);
+	} else {
+		operators(&mut c, &mut rng, if opts.thorough() { 40_000 } else { 4_000 });
+		literals(&mut c);
+		unescapes(&mut c, &mut rng, if opts.thorough() { 60_000 } else { 6_000 });
+		mutations(&mut c, &mut rng, if opts.thorough() { 600 } else { 60 });
+		trivia(&mut c, &mut rng, if opts.thorough() { 200 } else { 20 });
+		exhaustive(&mut c, full_len, max_len);
+	}
+	let n = c.w.n;
+	let hist = c.hist.clone();
+	let all_reject = c.all_reject;
+	c.w.finish(
+		json!({"engine":"c06","cases":n,
+			"rule": format!("all token sequences over a {}-token alphabet to length {full_len}, viable prefixes (error at end of input in either evaluator parser) to length {max_len}; 19x19 operator pairs in both association positions, 4x19 unary placements, raw pairs/triples, random ASTs printed with minimal and redundant parentheses; {} programs x single-token delete/replace/insert; trivia insertion at every boundary; literal/escape/text-block/number/reserved-word/trailing-comma forms; unescape on all \\xHH, \\u edge classes and pairs", ALPHABET.len(), PROGRAMS.len()),
+			"sequences_rejected_by_all_three_not_emitted": all_reject,
+			"histogram": hist}),
+		&opts.out,
+	);
 }
